@@ -67,9 +67,15 @@ struct DescCompare {
 template <typename Item> using OrderedDesc = eventpp::OrderedQueueList<Item, DescCompare>;
 #endif
 
+#ifndef VH_MAP
+#define VH_MAP 0
+#endif
 struct Policies {
 	using Threading = VH_THREADING;
 	using Mixins = eventpp::MixinList<eventpp::MixinFilter>;
+#if VH_MAP == 1
+	template <typename Key, typename T> using Map = std::map<Key, T>;   // ordered map instead of the default hashed one
+#endif
 #if VH_ORDERED == 1
 	template <typename Item> using QueueList = eventpp::OrderedQueueList<Item>;
 #elif VH_ORDERED == 2
